@@ -226,6 +226,7 @@ func CheckC07(c *Ctx) {
 	run.Explanation = "Inverse (3 points), Split (9), the MACD-RSI combiner (9) are compared point by point with the documented functions; And/Or/Majority vote predicates are evaluated on every tally (buy, hold, sell) with buy+hold+sell = k for k = 1..6, which realises every consistent weak ordering of the compared quantities (the predicates only compare them); CountActions is shown to take exactly one action from every source per position and to increment exactly one counter per action, and every source to pass through DenormalizeActions; the No-Loss and Stop-Loss closures are extracted as transducers over action x {not invested, invested} x ordering(level, close) and compared with the specification transducer (outputs and updates of the remembered level), from which the safety statements follow for all histories because the transducer is finite. Comparison is semantic: branch order or if/switch style do not matter. The behaviour of the wrapped strategies themselves and float rounding are not decided. No-Loss and Stop-Loss are compared with the documented step written as a conditional expression, for every wrapped action and every ordering of close, remembered level and 0 (including non-positive closings), outputs and level updates alike."
 	run.Trusted = []string{"go/types", "specification tables in rules/c07_c08.go (DESIGN appendix C)", "closing prices are positive (the level 0 encodes 'not invested')"}
 
+	c.compoundRegistries()
 	// Inverse
 	if fi := c.fn("strategy/decorator", "InverseStrategy", "Compute"); fi != nil {
 		info := fi.Pkg.TypesInfo
@@ -1462,4 +1463,155 @@ func derivesFromDeep(info *types.Info, fd *ast.FuncDecl, e ast.Expr, suffix stri
 		return false
 	}
 	return walk(e, 0)
+}
+
+// compoundRegistries: AllAndStrategies / AllSplitStrategies build one compound per ordered pair
+// of different strategies of the list they are given. What each compound combines is decided on
+// the source: the object appended in the inner loop has exactly the two loop variables as its
+// operands - through its constructor's strategy arguments and any slice literal stored into a
+// field of it before the append. (With the operands missing an And strategy votes over nothing;
+// with one of them twice a Split strategy buys and sells on the same strategy.)
+func (c *Ctx) compoundRegistries() {
+	run := c.Run
+	run.Explanation += " The compounds built by AllAndStrategies / AllSplitStrategies have exactly the two strategies of their pair as operands."
+	sp := c.P.Pkg("strategy")
+	if sp == nil {
+		return
+	}
+	info := sp.TypesInfo
+	n := 0
+	isStrategy := func(e ast.Expr) bool {
+		t := info.TypeOf(e)
+		if t == nil {
+			return false
+		}
+		nm, ok := t.(*types.Named)
+		return ok && nm.Obj().Name() == "Strategy" && nm.Obj().Pkg() == sp.Types
+	}
+	for _, fi := range c.P.Decls {
+		if fi.Pkg != sp || fi.Decl.Recv != nil || fi.Decl.Body == nil || !strings.HasPrefix(fi.Fn.Name(), "All") || fi.Fn.Name() == "AllStrategies" {
+			continue
+		}
+		if strings.HasSuffix(c.P.Fset.Position(fi.Decl.Pos()).Filename, "_test.go") {
+			continue
+		}
+		site := "strategy." + fi.Fn.Name()
+		var outer, inner *ast.RangeStmt
+		ast.Inspect(fi.Decl.Body, func(nd ast.Node) bool {
+			if r, ok := nd.(*ast.RangeStmt); ok {
+				if outer == nil {
+					outer = r
+				} else if inner == nil && r.Pos() > outer.Body.Pos() && r.End() < outer.Body.End() {
+					inner = r
+				}
+			}
+			return true
+		})
+		n++
+		why := ""
+		var v1, v2 types.Object
+		if outer == nil || inner == nil {
+			why = "the function no longer has the two nested loops over the list (undecided, fails closed)"
+		} else {
+			a, ok1 := outer.Value.(*ast.Ident)
+			b, ok2 := inner.Value.(*ast.Ident)
+			if !ok1 || !ok2 {
+				why = "the loops do not name their elements (undecided, fails closed)"
+			} else {
+				v1, v2 = info.ObjectOf(a), info.ObjectOf(b)
+			}
+		}
+		if why == "" {
+			appends := 0
+			ast.Inspect(inner.Body, func(nd ast.Node) bool {
+				call, ok := nd.(*ast.CallExpr)
+				if !ok || len(call.Args) != 2 {
+					return true
+				}
+				if id, isID := call.Fun.(*ast.Ident); !isID || id.Name != "append" {
+					return true
+				}
+				appends++
+				// the object appended: a constructor call, or a local assigned from one
+				elem := ast.Unparen(call.Args[1])
+				var ctor *ast.CallExpr
+				var local types.Object
+				if cc, isC := elem.(*ast.CallExpr); isC {
+					ctor = cc
+				} else if id, isID := elem.(*ast.Ident); isID {
+					local = info.ObjectOf(id)
+					ast.Inspect(inner.Body, func(m ast.Node) bool {
+						as, isAs := m.(*ast.AssignStmt)
+						if isAs && len(as.Lhs) == 1 && len(as.Rhs) == 1 {
+							if l, isL := as.Lhs[0].(*ast.Ident); isL && info.ObjectOf(l) == local {
+								if cc, isC := ast.Unparen(as.Rhs[0]).(*ast.CallExpr); isC {
+									ctor = cc
+								}
+							}
+						}
+						return true
+					})
+				}
+				if ctor == nil {
+					why = "what is appended is not built by a constructor call in the loop (undecided, fails closed)"
+					return true
+				}
+				var operands []ast.Expr
+				for _, a := range ctor.Args {
+					if isStrategy(a) {
+						operands = append(operands, a)
+					}
+				}
+				if local != nil {
+					ast.Inspect(inner.Body, func(m ast.Node) bool {
+						as, isAs := m.(*ast.AssignStmt)
+						if !isAs || len(as.Lhs) != 1 || len(as.Rhs) != 1 || as.Pos() > call.Pos() {
+							return true
+						}
+						sel, isSel := as.Lhs[0].(*ast.SelectorExpr)
+						if !isSel {
+							return true
+						}
+						if x, isX := sel.X.(*ast.Ident); !isX || info.ObjectOf(x) != local {
+							return true
+						}
+						if cl, isCL := ast.Unparen(as.Rhs[0]).(*ast.CompositeLit); isCL {
+							operands = nil // the field replaces what the constructor was given
+							for _, e := range cl.Elts {
+								operands = append(operands, e)
+							}
+						} else if isStrategy(as.Rhs[0]) {
+							operands = append(operands, as.Rhs[0])
+						}
+						return true
+					})
+				}
+				isVar := func(e ast.Expr, o types.Object) bool {
+					id, ok := ast.Unparen(e).(*ast.Ident)
+					return ok && info.ObjectOf(id) == o
+				}
+				// both loops run over the same list, so (a, b) and (b, a) both occur: which loop
+				// variable comes first only permutes the registry
+				inOrder := len(operands) == 2 && isVar(operands[0], v1) && isVar(operands[1], v2)
+				swapped := len(operands) == 2 && isVar(operands[0], v2) && isVar(operands[1], v1) && exprString(outer.X) == exprString(inner.X)
+				if !inOrder && !swapped {
+					var txt []string
+					for _, o := range operands {
+						txt = append(txt, exprString(o))
+					}
+					why = fmt.Sprintf("the compound appended for the pair (%s, %s) has the operands [%s]", v1.Name(), v2.Name(), strings.Join(txt, ", "))
+				}
+				return true
+			})
+			if appends == 0 && why == "" {
+				why = "nothing is appended in the inner loop"
+			}
+		}
+		run.Oblige(why == "")
+		if why != "" {
+			c.violate("compound-registry", site, short(why, 60), fi.Decl.Pos(), "every compound of the registry combines exactly the two strategies of its pair: "+why)
+		}
+	}
+	run.Count("compound_registries", n)
+	run.Floor("compound_registries", 2)
 }
